@@ -554,7 +554,7 @@ func (b *Browser) absorb(r *Resp) {
 // ReqFor builds the request a browser would send for an absolute or host-relative URL.
 func (b *Browser) ReqFor(target string) Req {
 	scheme, host, path := b.W.Scheme, b.W.AppHost, target
-	if i := strings.Index(target, "://"); i >= 0 {
+	if i := strings.Index(target, "://"); i > 0 && !strings.ContainsAny(target[:i], "/?#") {
 		// split by hand: nothing is re-encoded
 		scheme = target[:i]
 		rest := target[i+3:]
